@@ -26,6 +26,7 @@ def run(S):
     revoked_classification(S, D)
     claimed_amounts(S, D)
     revoked_htlc_claims(S, D)
+    block_filter(S, D)
     C07.fee_from_spent(S, D, W)
     C07.bump(S, D, W)
     C07.locktime_and_output(S, D, W)
@@ -235,3 +236,83 @@ def revoked_htlc_claims(S, D):
     S.no_panic(ids[3], E, pre, 'no out-of-bounds index into the outputs, no overflow', [b])
     S.witness(ids[4], E, pre + [has_idx, consistent, z3.Not(offered)], cont)
     S.validate(ids[5], E, b, n=4, extra_vectors=[(1, 1, 1), (1, 0, 1), (0, 1, 1), (0, 0, 1)])
+
+
+def block_filter(S, D):
+    """C06.d: the closure ChannelMonitorImpl::filter_block applies to every transaction of a connected block: a
+    transaction is handed to the monitor iff it spends a watched output or ANY of its inputs spends a transaction matched
+    earlier in the same block (a justice / HTLC transaction spending the commitment confirmed a few transactions before it,
+    whatever the position of that input), and a matched transaction is remembered for the ones after it."""
+    import re
+    ids = ['C06.d.dependent_txn_matched', 'C06.d.nopanic', 'C06.d.witness', 'C06.d.validate']
+    if all(S._skip(o) for o in ids):
+        return
+    NI = 2
+    ix = S.mir()
+    c = [i for i in range(len(ix.offsets)) if re.search(r'::filter_block::\{closure#0\}\(', ix.offsets[i][0])]
+    if len(c) != 1:
+        raise X.Unsupported('filter closure of filter_block: %d candidates' % len(c))
+    f = ix.get(c[0])
+    E = S.engine(unwind=NI + 2)
+    E.slice_cap = NI
+    mem = {}
+    caps_n = {}
+    for dn, dv in f.debug.items():
+        mm = re.search(r'\(\*_1\)\.(\d+): ', dv)
+        if mm:
+            caps_n[int(mm.group(1))] = dn
+    caps = []
+    for k in range(max(caps_n) + 1 if caps_n else 2):
+        cc = E.new_cell()
+        mem[cc] = X.Opaque('captured ' + caps_n.get(k, '?'))
+        caps.append(X.Ref(cc))
+    key = re.search(r'\{closure@[^}]*\}', f.params[0][1]).group(0)
+    ccell = E.new_cell()
+    mem[ccell] = X.Clo(key, caps)
+    tx = E.sym('tx', '&bitcoin::Transaction', mem)
+    pair = X.Tup([E.sym('pos', 'usize'), tx])
+    pc = E.new_cell()
+    mem[pc] = pair
+    pc2 = E.new_cell()
+    mem[pc2] = X.Ref(pc)
+    spends = z3.Bool('env.spends_watched_output')
+    contains = [z3.Bool('env.input%d_parent_matched' % i) for i in range(NI)]
+    inserted = []
+
+    def which(v, mem_):
+        while isinstance(v, X.Ref):
+            ks = [st[1] for st in v.path if st[0] == 'i']
+            if ks:
+                return ks[-1]
+            v = E.read_path(mem_[v.cell], v.path, mem_, True, 'input')
+        raise X.Unsupported('cannot tell which input %r is' % (v,))
+
+    def h_contains(E_, m, func, argv, guard, mem_, dty, caller):
+        k = which(argv[1], mem_)
+        return X.B(contains[k] if isinstance(k, int) else z3.Or(*[z3.And(k == i, contains[i]) for i in range(NI)]))
+    for rx, h in [
+        (r'spends_watched_output$', lambda *a: X.B(spends)),
+        (r'HashSet::<.*Txid.*>::contains::<', h_contains),
+        (r'HashSet::<.*Txid.*>::insert$', lambda E_, m, func, argv, guard, mem_, dty, caller: (inserted.append(X.zbool(guard)), X.B(True))[1]),
+        (r'Transaction::compute_txid$', lambda *a: X.Adt('Txid', {}, base='this_txid')),
+    ]:
+        E.models.insert(0, (re.compile(rx), h))
+    rv = S.call(E, f, [X.Ref(ccell), X.Ref(pc2)], mem)
+    matches = X.zbool(rv.t)
+    # `input` is field 2 of bitcoin::Transaction (version, lock_time, input, output): the index the closure's MIR uses
+    inputs = E.read_path(mem[tx.cell], (('f', 2, 'std::vec::Vec<bitcoin::TxIn>'),), mem, True, 'spec')
+    n = inputs.n
+    spec = z3.Or(spends, *[z3.And(n > i, contains[i]) for i in range(NI)])
+    remembered = z3.Or(*inserted) if inserted else z3.BoolVal(False)
+    panic = z3.Or(*[X.zbool(p[0]) for p in E.panics]) if E.panics else False
+    # live replay: transaction B of the probe has two inputs, does not itself spend a watched output, and at most one of
+    # its inputs spends the matched transaction A
+    live = z3.And(n == 2, z3.Not(spends), z3.Not(z3.And(contains[0], contains[1])))
+    b = Binding('filter_block_probe', [z3.If(contains[0], 0, z3.If(contains[1], 1, 2)), z3.If(live, 1, 0)], [None, z3.If(matches, 1, 0)],
+                line_fn=lambda v: str(v[0]), which='oracle_tu', panic=panic, via_solver=True, domain=[(0, 2), (1, 1)])
+    S.prove(ids[0], E, [], z3.And(matches == spec, remembered == matches),
+            'a transaction of a connected block is selected iff it spends a watched output or any one of its inputs spends a transaction selected earlier in that block, and every selected transaction is remembered for the transactions that follow',
+            [b], bounds='transactions with <= %d inputs; watched-output lookup and the set of earlier matches stubbed' % NI)
+    S.no_panic(ids[1], E, [], 'total', [b])
+    S.witness(ids[2], E, [z3.Not(spends), n == 2, z3.Not(contains[0]), contains[1]], matches)
+    S.validate(ids[3], E, b, n=3, extra_vectors=[(0, 1), (1, 1), (2, 1)])
